@@ -89,14 +89,23 @@ def main():
             elif st == "float_default":
                 torch.set_default_dtype(torch.float32)
 
-    def seeded_call(logs, tag):
+    def seeded_call(logs, tag, reuse_settings=False):
         what = job["what"]
         trace = []
         out = io.StringIO()
         with contextlib.redirect_stdout(out):
             if what == "fit":
                 m = new_model()
-                settings = AlgorithmSettings("mcmc_saem", seed=job["seed"], progress_bar=False, **job["settings"])
+                if reuse_settings:
+                    # the caller's settings object already served another (shorter, annealed) fit: a settings object can be reused
+                    settings = AlgorithmSettings("mcmc_saem", seed=3, progress_bar=False, **dict(job["settings"], n_iter=max(4, job["settings"]["n_iter"] // 2)))
+                    m0 = gen.make_model("logistic", 2, 1, "gaussian-diagonal")
+                    d0 = gen.cohort(np.random.default_rng(77), n_ind=5, n_feat=2, missing="none", one_visit_ok=False)
+                    m0.fit(gen.to_dataset(d0), algorithm_settings=settings)
+                    settings.parameters["n_iter"] = job["settings"]["n_iter"]
+                    settings.seed = job["seed"]
+                else:
+                    settings = AlgorithmSettings("mcmc_saem", seed=job["seed"], progress_bar=False, **job["settings"])
                 if logs is not None:
                     lg = dict(logs)
                     if lg.get("path"):
@@ -115,7 +124,8 @@ def main():
 
                 algo._iteration = it
                 algo.run(m, ds)
-                return {"final": dig_tensors(dict(m.parameters)), "trace": trace}
+                fm = getattr(m, "fit_metrics", None) or {}
+                return {"final": dig_tensors(dict(m.parameters)) + ":" + repr(sorted((k, float(v)) for k, v in fm.items())), "trace": trace}
             m = fitted_model()
             if what == "simulate":
                 vp = {"patient_number": 5, "visit_type": "random", "first_visit_mean": 0.0, "first_visit_std": 0.4, "time_follow_up_mean": 4,
@@ -137,7 +147,7 @@ def main():
     for vi, var in enumerate(job["variants"]):
         try:
             prelude(var.get("prelude", []))
-            outs.append(seeded_call(var.get("logs"), vi))
+            outs.append(seeded_call(var.get("logs"), vi, reuse_settings=bool(var.get("reuse_settings"))))
         except Exception as e:
             outs.append(None)
             errors.append({"variant": vi, "type": type(e).__name__, "msg": str(e)[:300], "tb": traceback.format_exc()[-3000:]})
